@@ -487,6 +487,16 @@ pub fn run_lifecycle(seed: u64, params: &Params, out: &mut ScnOut) {
     let fault_ns = rng.range(2, 30) * SEC;
     let net = faulty_net(&mut rng, fault_ns, true);
     let mut w = World::new(seed, net, verbose);
+    // `sock_errors`: the operating system refuses every n-th send (ENOBUFS: the frame is not
+    // transmitted, uflow is told so and ignores it) and reports an error on every m-th receive call
+    // (ECONNREFUSED after an ICMP error: the receive loop of that step ends early). Only the
+    // crash, event-stream, payload and heap oracles are kept for such runs: the others map frames
+    // to "the step that read them", which a failing receive call moves.
+    let sock_errors = params.flag("sock_errors");
+    if sock_errors {
+        let mut frng = Rng::new(seed ^ 0x50c3);
+        uflow::verif::net::set_socket_faults(*frng.pick(&[0u64, 2, 3, 7, 20, 100]), *frng.pick(&[0u64, 2, 3, 5, 17, 50]));
+    }
     let max_clients = params.u64("max_clients", 4) as usize;
     let n_clients = rng.range(1, max_clients as u64) as usize;
     let scfg = uflow::server::Config { max_total_connections: 64, max_active_connections: 32, enable_handshake_errors: rng.chance(0.3), endpoint_config: ep_cfg(&mut rng) };
@@ -629,6 +639,13 @@ pub fn run_lifecycle(seed: u64, params: &Params, out: &mut ScnOut) {
     let nontrivial = if prop == "C09" { nontrivial_c09 || w.c.get("c09_disconnect_exchanges") > 0 } else { ended_up };
     let sample = if seed % 61 == 0 { Some(history_sample(&w, "lifecycle")) } else { None };
     w.finish();
+    if sock_errors {
+        let (se, re) = uflow::verif::net::socket_fault_counts();
+        w.c.add("socket_send_errors_injected", se as i128);
+        w.c.add("socket_recv_errors_injected", re as i128);
+        uflow::verif::net::set_socket_faults(0, 0);
+        w.violations.retain(|v| matches!(v.prop, "C03" | "C08" | "C01" | "C19"));
+    }
     world_out(out, &mut w, nontrivial, seed, sample);
 }
 
@@ -1207,7 +1224,10 @@ pub fn run_ep_ideal(seed: u64, params: &Params, out: &mut ScnOut) {
     // each may send packets up to the other's allowance, also far above its own
     let c_pkt = rng.log_range(100, (s_alloc as u64).min(1_000_000)) as usize;
     let s_pkt = rng.log_range(100, (c_alloc as u64).min(1_000_000)) as usize;
-    let rates = [20_000usize, 100_000, 2_000_000, 10_000_000, 1 << 32, (1 << 32) + 2_000_000, usize::MAX];
+    // `tiny_rates`: legal limits below one frame per second (outside the domain of C13 / C14, whose
+    // oracles are skipped then; the crash, hang and delivery oracles still apply)
+    let tiny = params.flag("tiny_rates");
+    let rates: Vec<usize> = if tiny { vec![1, 2, 22, 23, 24, 100, 1000, 1471, 2_000_000] } else { vec![20_000usize, 100_000, 2_000_000, 10_000_000, 1 << 32, (1 << 32) + 2_000_000, usize::MAX] };
     let ccfg = uflow::EndpointConfig { max_send_rate: *rng.pick(&rates), max_receive_rate: *rng.pick(&rates), max_packet_size: c_pkt, max_receive_alloc: c_alloc, keepalive: true, keepalive_interval_ms: 2000, active_timeout_ms: 60_000 };
     let scfg_ep = uflow::EndpointConfig { max_send_rate: *rng.pick(&rates), max_receive_rate: *rng.pick(&rates), max_packet_size: s_pkt, max_receive_alloc: s_alloc, keepalive: true, keepalive_interval_ms: 2000, active_timeout_ms: 60_000 };
     let cads = [(MS, MS), (10 * MS, 10 * MS), (50 * MS, 50 * MS), (100 * MS, 100 * MS)];
@@ -1320,7 +1340,10 @@ pub fn run_ep_ideal(seed: u64, params: &Params, out: &mut ScnOut) {
     }
     check_payloads(&mut w);
     if let Some(m) = live_viol {
-        w.viol("C14", "live-rate-above-ceiling", m);
+        // (C14 is stated for ceilings of at least one frame per second)
+        if b_c2s >= 1472.0 && b_s2c >= 1472.0 {
+            w.viol("C14", "live-rate-above-ceiling", m);
+        }
     }
     // C07: what goes on the wire in the handshake is the configuration, capped at 2^32-1
     {
@@ -1357,6 +1380,9 @@ pub fn run_ep_ideal(seed: u64, params: &Params, out: &mut ScnOut) {
     // negotiated ceiling, with the largest RTT estimate the sender ever held and its largest step
     // interval (the coarse form of the bound: anything it reports is far outside)
     for (dir, src, b, rtt, gap) in [("client->server", addr, b_c2s, rtt_c, w.clients[ci].max_step_gap_ns), ("server->client", w.server.addr, b_s2c, rtt_s, w.server.max_step_gap_ns)] {
+        if b < 1472.0 {
+            continue; // C13 is stated for ceilings of at least one frame per second
+        }
         let tr: Vec<crate::hcsim::TxEvent> = w.wire.iter().filter(|r| r.src == src && !r.injected && matches!(r.frame, Some(RFrame::Data { .. }) | Some(RFrame::Acks { .. }) | Some(RFrame::Sync { .. }))).map(|r| crate::hcsim::TxEvent { t_ns: r.t_ns, len: r.len as u32, rtt_s: rtt, step_dt_ns: gap, after_app_flush: true }).collect();
         let mut v = Vec::new();
         let mut cc = Counters::default();
